@@ -76,6 +76,8 @@ pub struct Tr<'a> {
     pub fuel: bool,
     /// set when a loop / a call of a fuelled function is met while `fuel` is false (the caller retries with fuel)
     pub needs_fuel: bool,
+    /// the non-fuel pass met `opt.unwrap()`: retried with fuel, where it is an exit with None
+    pub unwrap_retry: bool,
     /// the fuel variable in scope
     pub fuel_var: String,
     /// names of fuelled functions (for the syntactic effect analysis)
@@ -88,6 +90,8 @@ pub struct Tr<'a> {
     pub ret_coq: String,
     /// enclosing loops: (continue expression, break placeholder)
     pub loops: Vec<(String, String)>,
+    /// inside the closure of `core::iter::from_fn(move || ..)`: (recursive call of the generator Fixpoint, flatten?, item type)
+    pub gen: Option<(String, bool, std::cell::RefCell<Option<Ty>>)>,
     /// roots assigned anywhere in the function body
     pub fn_assigned: BTreeSet<String>,
     /// the file the translated function is in (tie-break for type names)
@@ -186,6 +190,27 @@ pub fn conv_ty(t: &Type, adts: &dyn Fn(&str) -> Option<Ty>, generics: &BTreeSet<
                 Ok(Ty::Tuple(tt.elems.iter().map(|x| conv_ty(x, adts, generics, self_ty)).collect::<R<Vec<_>>>()?))
             }
         }
+        Type::ImplTrait(it) => {
+            // `impl Iterator<Item = T> + '_` as a RETURN type: the list of the items the iterator yields
+            for b in it.bounds.iter() {
+                if let TypeParamBound::Trait(tb) = b {
+                    if let Some(s) = tb.path.segments.last() {
+                        if s.ident == "Iterator" {
+                            if let PathArguments::AngleBracketed(a) = &s.arguments {
+                                for g in a.args.iter() {
+                                    if let GenericArgument::AssocType(at) = g {
+                                        if at.ident == "Item" {
+                                            return Ok(Ty::Slice(Box::new(conv_ty(&at.ty, adts, generics, self_ty)?)));
+                                        }
+                                    }
+                                }
+                            }
+                        }
+                    }
+                }
+            }
+            Err(unsupported(t, "`impl Trait` type (only `impl Iterator<Item = T>`)"))
+        }
         Type::TraitObject(to) => {
             // `dyn Trait` where `Trait` is configured as an `extern` type (its methods are Coq functions of the value)
             for b in to.bounds.iter() {
@@ -221,10 +246,7 @@ pub fn conv_ty(t: &Type, adts: &dyn Fn(&str) -> Option<Ty>, generics: &BTreeSet<
                 // a length that is not a literal (a const generic, `SIZE * SIZE`): the array is a list, like a slice
                 _ => return Ok(Ty::Slice(Box::new(e))),
             };
-            if n < 2 {
-                return Err(unsupported(t, "array type of length < 2"));
-            }
-            if n > 8 {
+            if n < 2 || n > 8 {
                 return Ok(Ty::Slice(Box::new(e)));
             }
             Ok(Ty::Tuple(vec![e; n]))
@@ -244,6 +266,21 @@ pub fn conv_ty(t: &Type, adts: &dyn Fn(&str) -> Option<Ty>, generics: &BTreeSet<
             };
             if let Some(i) = IntTy::from_name(&name) {
                 return Ok(Ty::Int(Some(i)));
+            }
+            if name == "Windows" && p.path.segments.len() >= 2 && p.path.segments[p.path.segments.len() - 2].ident == "slice" {
+                // core::slice::Windows<'a, T>
+                if let PathArguments::AngleBracketed(a) = &seg.arguments {
+                    for g in a.args.iter() {
+                        if let GenericArgument::Type(x) = g {
+                            return Ok(Ty::Windows(Box::new(conv_ty(x, adts, generics, self_ty)?)));
+                        }
+                    }
+                }
+                return Err(unsupported(t, "`slice::Windows` without its element type"));
+            }
+            if name == "str" && p.path.segments.len() == 1 {
+                // `&str`: the list of its chars (code points)
+                return Ok(Ty::Slice(Box::new(Ty::Int(Some(IntTy::U32)))));
             }
             if name == "char" && p.path.segments.len() == 1 {
                 // a `char` is its code point
@@ -311,8 +348,20 @@ pub fn conv_ty(t: &Type, adts: &dyn Fn(&str) -> Option<Ty>, generics: &BTreeSet<
                 "Range" => Ok(Ty::Range(Box::new(arg1(seg)?))),
                 "RangeInclusive" => Ok(Ty::RangeIncl(Box::new(arg1(seg)?))),
                 n if p.path.segments.len() == 1 && generics.contains(n) => Ok(Ty::Param(name)),
+                // `I::Item`: an associated type of a generic parameter, a type variable of its own (`tyvar I::Item <coq type>`)
+                _ if p.path.segments.len() == 2 && generics.contains(&p.path.segments[0].ident.to_string()) && matches!(seg.arguments, PathArguments::None) => {
+                    Ok(Ty::Param(format!("{}::{}", p.path.segments[0].ident, name)))
+                }
                 n if adts(n).is_some() => Ok(adts(n).unwrap()),
                 _ => Err(unsupported(t, &format!("type `{}` (not an integer/bool/Option/tuple/range and not in the configured struct/enum table)", name))),
+            }
+        }
+        Type::Path(_) => {
+            // `<X as Trait>::Assoc`: only through a `tymap` line of functions.txt
+            let toks: String = quote::ToTokens::to_token_stream(t).to_string().chars().filter(|c| !c.is_whitespace()).collect();
+            match adts(&format!("qself:{}", toks)) {
+                Some(ty) => Ok(ty),
+                None => Err(unsupported(t, &format!("qualified type `{}` (give `tymap {} <configured type>`)", toks, toks))),
             }
         }
         _ => Err(unsupported(t, "type form")),
@@ -333,6 +382,7 @@ struct EffVisitor<'m> {
     mutarg_names: &'m BTreeSet<String>,
     /// identifier of the current `Self` type
     self_name: Option<String>,
+    unwrap_is_exit: bool,
 }
 
 impl<'m> EffVisitor<'m> {
@@ -412,9 +462,32 @@ impl<'ast, 'm> Visit<'ast> for EffVisitor<'m> {
     fn visit_expr_method_call(&mut self, i: &'ast ExprMethodCall) {
         let n = i.method.to_string();
         if self.mut_methods.contains(&n) || (n == "next" && i.args.is_empty()) || n == "get_mut" {
-            if let Some(r) = place_root(&i.receiver) {
-                self.eff.assigned.insert(r);
+            match place_root(&i.receiver) {
+                Some(r) => {
+                    self.eff.assigned.insert(r);
+                }
+                // a `&mut self` method on a temporary (a call result): still a call that has to be sequenced
+                None if self.mut_methods.contains(&n) && matches!(&*i.receiver, Expr::Call(_) | Expr::MethodCall(_)) => {
+                    self.eff.assigned.insert("<temporary>".into());
+                }
+                None => {}
             }
+        }
+        if n == "unwrap" && i.args.is_empty() && self.unwrap_is_exit && !matches!(&*i.receiver, Expr::MethodCall(r) if r.method == "try_into") {
+            // in a fuelled function `opt.unwrap()` leaves the function with None (no value) when opt is None
+            self.eff.ret = true;
+        }
+        if n == "for_each" && i.args.len() == 1 {
+            // `place.iter_mut().for_each(|v| ..)` writes the place
+            if let Expr::MethodCall(r) = &*i.receiver {
+                if r.method == "iter_mut" {
+                    self.eff.assigned.insert(place_root(&r.receiver).unwrap_or_else(|| "<complex place>".into()));
+                }
+            }
+        }
+        if n == "zip" && i.args.len() == 1 {
+            // may drive an iterator value to a list (fuel): sequenced like a call
+            self.eff.ret = true;
         }
         if n == "inspect" {
             // `opt.inspect(|_| { statements })` runs the statements
@@ -432,7 +505,7 @@ impl<'ast, 'm> Visit<'ast> for EffVisitor<'m> {
             }
             self.eff.assigned.insert(place_root(r).unwrap_or_else(|| "<complex place>".into()));
         }
-        if self.fuel_names.contains(&n) || (n == "last" && i.args.is_empty()) {
+        if self.fuel_names.contains(&n) || (n == "last" && i.args.is_empty()) || (n == "fold" && i.args.len() == 2 && matches!(&i.args[1], Expr::Closure(c) if c.inputs.len() == 2)) {
             self.eff.ret = true;
         }
         self.mutargs(&n, i.args.iter());
@@ -454,7 +527,14 @@ impl<'ast, 'm> Visit<'ast> for EffVisitor<'m> {
                 if hit {
                     self.eff.ret = true;
                 }
-                self.mutargs(&n, i.args.iter());
+                let key = if segs.len() >= 2 && segs[segs.len() - 2] != "Self" {
+                    format!("{}::{}", segs[segs.len() - 2], n)
+                } else if segs.len() >= 2 && self.self_name.is_some() {
+                    format!("{}::{}", self.self_name.as_ref().unwrap(), n)
+                } else {
+                    n.clone()
+                };
+                self.mutargs(&key, i.args.iter());
             }
         }
         visit::visit_expr_call(self, i);
@@ -478,6 +558,12 @@ impl<'ast, 'm> Visit<'ast> for EffVisitor<'m> {
     }
     fn visit_expr_continue(&mut self, _i: &'ast ExprContinue) {
         self.eff.ret = true;
+    }
+    fn visit_macro(&mut self, m: &'ast Macro) {
+        let n = m.path.segments.last().map(|s| s.ident.to_string()).unwrap_or_default();
+        if n == "panic" || n == "unreachable" || n == "unimplemented" || n == "todo" {
+            self.eff.ret = true;
+        }
     }
     fn visit_expr_closure(&mut self, i: &'ast ExprClosure) {
         // closures are translated as pure functions; the only writes looked for inside are the mutable sub-slice chains
@@ -518,12 +604,12 @@ impl<'a> Tr<'a> {
     }
 
     pub fn effects_expr(&self, e: &Expr) -> Eff {
-        let mut v = EffVisitor { eff: Eff::default(), mut_methods: &self.mut_methods, fuel_names: &self.fuel_names, mutarg_names: &self.mutarg_names, self_name: self.self_ty.as_deref().map(|s| s.rsplit('.').next().unwrap().split('<').next().unwrap().to_string()) };
+        let mut v = EffVisitor { eff: Eff::default(), mut_methods: &self.mut_methods, fuel_names: &self.fuel_names, mutarg_names: &self.mutarg_names, self_name: self.self_ty.as_deref().map(|s| s.rsplit('.').next().unwrap().split('<').next().unwrap().to_string()), unwrap_is_exit: self.fuel };
         v.visit_expr(e);
         v.eff
     }
     pub fn effects_stmts(&self, s: &[Stmt]) -> Eff {
-        let mut v = EffVisitor { eff: Eff::default(), mut_methods: &self.mut_methods, fuel_names: &self.fuel_names, mutarg_names: &self.mutarg_names, self_name: self.self_ty.as_deref().map(|s| s.rsplit('.').next().unwrap().split('<').next().unwrap().to_string()) };
+        let mut v = EffVisitor { eff: Eff::default(), mut_methods: &self.mut_methods, fuel_names: &self.fuel_names, mutarg_names: &self.mutarg_names, self_name: self.self_ty.as_deref().map(|s| s.rsplit('.').next().unwrap().split('<').next().unwrap().to_string()), unwrap_is_exit: self.fuel };
         for x in s {
             v.visit_stmt(x);
         }
@@ -583,6 +669,21 @@ impl<'a> Tr<'a> {
                 }
                 Ok(format!("({})", parts.join(", ")))
             }
+            Pat::Slice(t) if matches!(ty, Ty::Slice(_)) => {
+                // `[a, b]` against a slice: the list of exactly these elements
+                let et = match ty {
+                    Ty::Slice(x) => (**x).clone(),
+                    _ => unreachable!(),
+                };
+                let mut parts = vec![];
+                for q in t.elems.iter() {
+                    if matches!(q, Pat::Rest(_)) {
+                        return Err(unsupported(p, "`..` in a slice pattern"));
+                    }
+                    parts.push(self.bind_pat(q, &et, env)?);
+                }
+                Ok(format!("[{}]", parts.join("; ")))
+            }
             Pat::Slice(t) => {
                 let tys = match ty {
                     Ty::Tuple(ts) if ts.len() == t.elems.len() => ts.clone(),
@@ -600,7 +701,8 @@ impl<'a> Tr<'a> {
             Pat::Lit(l) => match &l.lit {
                 Lit::Int(i) => Ok(lit(i.base10_parse::<i128>().map_err(|e| e.to_string())?)),
                 Lit::Bool(b) => Ok(if b.value { "true".into() } else { "false".into() }),
-                _ => Err(unsupported(p, "literal pattern that is not an integer or bool")),
+                Lit::Char(c) => Ok(lit(c.value() as i128)),
+                _ => Err(unsupported(p, "literal pattern that is not an integer, char or bool")),
             },
             Pat::Or(o) => {
                 // every alternative must bind the same variables; they get the same Coq names
